@@ -25,7 +25,7 @@ RULE = ("plan = initial frames (constructor plans incl. scalars, length-1 values
         "and removed names; broadcast gives nrow identical cells; any other length mismatch raises and leaves the frame "
         "bit-identical. Non-trivial: ≥ 3 executed steps with an in-place edit and a transforming call, or a degenerate shape "
         "(0-row, 0-column, 1-row, all-missing column) reached. Distinct = plan hash.")
-CASES = {"quick": 1200, "thorough": 3000}
+CASES = {"quick": 1200, "thorough": 6000}
 
 KINDS = ["f", "i", "b", "s", "u", "d", "t", "td", "o", "ob"]
 NAMES = gen.NAMES_PLAIN + gen.NAMES_CLASH + gen.NAMES_NONID[:3]
